@@ -1,6 +1,6 @@
 (* staged = compile up to error decoration, by composition over the serde round trip *)
 From Coq Require Import List NArith Bool.
-From PV Require Import Lib.ListX Model.Json Model.Serde Model.SerdeStaged Proofs.SerdeProofs.
+From PV Require Import Lib.ListX Model.Json Model.Serde Model.SerdeDoc Model.SerdeStaged Proofs.SerdeProofs Proofs.SerdeDeProofs.
 Import ListNotations.
 
 Section StagedProofs.
@@ -55,3 +55,51 @@ Section StagedProofs.
     intros Ep Hd. unfold SerdeStaged.staged, prql_to_pl, to_json, from_json. rewrite Ep. cbn [bind map_err]. rewrite Hd. reflexivity.
   Qed.
 End StagedProofs.
+
+(* The same theorem with the hypotheses in the form the correspondence tests on every run: the value a stage returns
+   is one the model READS from some document with distinct keys (stream `model-de-ser`: the document is the one prqlc
+   itself wrote for that value, the model's `de` accepts it and `ser (de j) = j`).  Typing and finiteness are then
+   consequences (`de_wt`), not assumptions; and the only hypotheses about errors are the two `core` equations. *)
+Section StagedDocs.
+  Variables src opts sql err errc : Type.
+  Variable E : env.
+  Variables dPL dRQ : desc.
+  Variable parse : src -> res err value.
+  Variable resolve : value -> res err value.
+  Variable gen : opts -> value -> res err sql.
+  Variables tagNR tagSQL : err -> err.
+  Variable compose : src -> opts -> err -> err.
+  Variable compose1 : src -> err -> err.
+  Variable json_err : json -> err.
+  Variable core : err -> errc.
+
+  Hypothesis Hschema : schema_ok E = true.
+  Hypothesis HdPL : desc_ok E dPL = true.
+  Hypothesis HdRQ : desc_ok E dRQ = true.
+  Hypothesis Hcore_compose : forall s o e, core (compose s o e) = core e.
+  Hypothesis Hcore_compose1 : forall s e, core (compose1 s e) = core e.
+
+  Definition from_doc (d : desc) (v : value) : Prop := exists j, jnodup j = true /\ de E d j = Some v.
+
+  Notation compile := (compile src opts sql err parse resolve gen tagNR tagSQL compose).
+  Notation staged := (staged src opts sql err E dPL dRQ parse resolve gen tagNR tagSQL compose1 json_err).
+  Notation observe := (observe sql err errc core).
+
+  Theorem staged_eq_direct_docs s o :
+    (forall v, parse s = Ok v -> from_doc dPL v) ->
+    (forall v w, parse s = Ok v -> resolve v = Ok w -> from_doc dRQ w) ->
+    observe (staged s o) = observe (compile s o).
+  Proof.
+    intros H1 H2. unfold SerdeStaged.staged, SerdeStaged.compile, prql_to_pl, pl_to_rq, rq_to_sql, to_json, from_json.
+    destruct (parse s) as [pl|e] eqn:Ep; cbn [bind map_err SerdeStaged.observe].
+    2: { rewrite Hcore_compose, Hcore_compose1. reflexivity. }
+    destruct (H1 pl eq_refl) as [j1 [Hn1 Hd1]].
+    rewrite (reserialise_stable E dPL j1 pl Hschema HdPL Hn1 Hd1). cbn [bind].
+    destruct (resolve pl) as [rq|e] eqn:Er; cbn [bind map_err SerdeStaged.observe].
+    2: { rewrite Hcore_compose. reflexivity. }
+    destruct (H2 pl rq eq_refl Er) as [j2 [Hn2 Hd2]].
+    rewrite (reserialise_stable E dRQ j2 rq Hschema HdRQ Hn2 Hd2). cbn [bind].
+    destruct (gen o rq) as [q|e]; cbn [map_err SerdeStaged.observe]; [reflexivity|].
+    rewrite Hcore_compose. reflexivity.
+  Qed.
+End StagedDocs.
